@@ -1,0 +1,124 @@
+//go:build verif
+// +build verif
+
+package hashgraph
+
+// Exported read-only accessors and a durable-write gate used by the external
+// verification harness. Compiled only with -tags verif.
+
+// VerifDBWriteHook, when set, is called at the start of every dbSet* method of
+// the BadgerStore with the kind of record about to be written.
+var VerifDBWriteHook func(kind string)
+
+func verifDBWrite(kind string) {
+	if h := VerifDBWriteHook; h != nil {
+		h(kind)
+	}
+}
+
+// VRound returns the private round field (nil if not set).
+func (e *Event) VRound() *int { return e.round }
+
+// VLamport returns the private lamportTimestamp field (nil if not set).
+func (e *Event) VLamport() *int { return e.lamportTimestamp }
+
+// VRoundReceived returns the private roundReceived field (nil if not set).
+func (e *Event) VRoundReceived() *int { return e.roundReceived }
+
+// VTopologicalIndex returns the private topologicalIndex field.
+func (e *Event) VTopologicalIndex() int { return e.topologicalIndex }
+
+// VSetTopologicalIndex sets the private topologicalIndex field.
+func (e *Event) VSetTopologicalIndex(i int) { e.topologicalIndex = i }
+
+// VLastAncestors returns the private lastAncestors coordinates.
+func (e *Event) VLastAncestors() CoordinatesMap { return e.lastAncestors }
+
+// VFirstDescendants returns the private firstDescendants coordinates.
+func (e *Event) VFirstDescendants() CoordinatesMap { return e.firstDescendants }
+
+// VWireIDs returns the private wire fields of the body.
+func (e *Event) VWireIDs() (creatorID, otherParentCreatorID uint32, selfParentIndex, otherParentIndex int) {
+	return e.Body.creatorID, e.Body.otherParentCreatorID, e.Body.selfParentIndex, e.Body.otherParentIndex
+}
+
+// VDecided returns the private sticky decided flag.
+func (r *RoundInfo) VDecided() bool { return r.decided }
+
+// VFame returns witness flag and fame ("U","T","F") of a created event.
+func (r *RoundInfo) VFame(x string) (witness bool, fame string, ok bool) {
+	e, ok := r.CreatedEvents[x]
+	if !ok {
+		return false, "", false
+	}
+	f := "U"
+	switch e.Famous.String() {
+	case "True":
+		f = "T"
+	case "False":
+		f = "F"
+	}
+	return e.Witness, f, true
+}
+
+// VRoundLowerBound returns the private roundLowerBound (nil if not set).
+func (h *Hashgraph) VRoundLowerBound() *int { return h.roundLowerBound }
+
+// VTopologicalIndex returns the hashgraph's private insertion counter.
+func (h *Hashgraph) VTopologicalIndex() int { return h.topologicalIndex }
+
+// VRound evaluates the (memoised) round function.
+func (h *Hashgraph) VRound(x string) (int, error) { return h.round(x) }
+
+// VWitness evaluates the (memoised) witness function.
+func (h *Hashgraph) VWitness(x string) (bool, error) { return h.witness(x) }
+
+// VLamport evaluates the (memoised) lamport timestamp function.
+func (h *Hashgraph) VLamport(x string) (int, error) { return h.lamportTimestamp(x) }
+
+// VRoundReceived returns the round-received of x (-1 if undefined).
+func (h *Hashgraph) VRoundReceived(x string) (int, error) { return h.roundReceived(x) }
+
+// VSee evaluates see(x,y).
+func (h *Hashgraph) VSee(x, y string) (bool, error) { return h.see(x, y) }
+
+// VMiddleBit exposes the coin used in coin rounds.
+func VMiddleBit(ehex string) bool { return middleBit(ehex) }
+
+// Direct database reads of the BadgerStore, bypassing the in-memory cache.
+
+func (s *BadgerStore) VDbGetEvent(key string) (*Event, error) { return s.dbGetEvent(key) }
+func (s *BadgerStore) VDbGetBlock(i int) (*Block, error)      { return s.dbGetBlock(i) }
+func (s *BadgerStore) VDbGetFrame(i int) (*Frame, error)      { return s.dbGetFrame(i) }
+func (s *BadgerStore) VDbGetRound(i int) (*RoundInfo, error)  { return s.dbGetRound(i) }
+func (s *BadgerStore) VDbGetRoot(p string) (*Root, error)     { return s.dbGetRoot(p) }
+func (s *BadgerStore) VDbTopologicalEvents(start, count int) ([]*Event, error) {
+	return s.dbTopologicalEvents(start, count)
+}
+func (s *BadgerStore) VDbParticipantEvents(p string, skip int) ([]string, error) {
+	return s.dbParticipantEvents(p, skip)
+}
+func (s *BadgerStore) VDbParticipantEvent(p string, i int) (string, error) {
+	return s.dbParticipantEvent(p, i)
+}
+func (s *BadgerStore) VDbGetPeerSetPeers(round int) ([]string, error) {
+	ps, err := s.dbGetPeerSet(round)
+	if err != nil {
+		return nil, err
+	}
+	return ps.PubKeys(), nil
+}
+func (s *BadgerStore) VDbGetRepertoireKeys() ([]string, error) {
+	rep, err := s.dbGetRepertoire()
+	if err != nil {
+		return nil, err
+	}
+	res := []string{}
+	for k := range rep {
+		res = append(res, k)
+	}
+	return res, nil
+}
+
+// VInmem returns the cache layer of the BadgerStore.
+func (s *BadgerStore) VInmem() *InmemStore { return s.inmemStore }
